@@ -336,7 +336,7 @@ impl SvgElement {
 //@end
 
 //@item src/element.rs :: impl SvgElement :: fn expand_compound_size
-//@ replace[R-strmatch] <<<if let ("ellipse", Some(rxy)) = (self.name.as_str(), self.attrs.pop("rxy")) {>>> => <<<let t_ = (self.name.as_str() == "ellipse", self.attrs.pop("rxy"));\n        if let (true, Some(rxy)) = t_ {>>>
+//@ replace?[R-strmatch] <<<if let ("ellipse", Some(rxy)) = (self.name.as_str(), self.attrs.pop("rxy")) {>>> => <<<let t_ = (self.name.as_str() == "ellipse", self.attrs.pop("rxy"));\n        if let (true, Some(rxy)) = t_ {>>>
 //@ ensures
 //@ - final(self).name == old(self).name
 //@ - lacks(final(self).attrs@, seq!["wh"@, "dwh"@, "rxy"@])     @@C11.shorthand.size.removed
@@ -347,7 +347,7 @@ impl SvgElement {
 //@ - old(self).attrs@.dom().contains("dwh"@) ==> final(self).attrs@.dom().contains("dw"@) && final(self).attrs@.dom().contains("dh"@)
 //@       && final(self).attrs@["dw"@] == first_wins(old(self).attrs@, "dw"@, split_x(old(self).attrs@["dwh"@]))
 //@       && final(self).attrs@["dh"@] == first_wins(old(self).attrs@, "dh"@, split_y(old(self).attrs@["dwh"@]))     @@C11.shorthand.dwh
-//@ - old(self).name@ == "ellipse"@ && old(self).attrs@.dom().contains("rxy"@) ==> final(self).attrs@.dom().contains("rx"@) && final(self).attrs@.dom().contains("ry"@)
+//@ - old(self).attrs@.dom().contains("rxy"@) ==> final(self).attrs@.dom().contains("rx"@) && final(self).attrs@.dom().contains("ry"@)
 //@       && final(self).attrs@["rx"@] == first_wins(old(self).attrs@, "rx"@, split_x(old(self).attrs@["rxy"@]))
 //@       && final(self).attrs@["ry"@] == first_wins(old(self).attrs@, "ry"@, split_y(old(self).attrs@["rxy"@]))     @@C11.shorthand.rxy
 //@ - forall|k: Seq<char>| k != "wh"@ && k != "dwh"@ && k != "rxy"@ && k != "width"@ && k != "height"@ && k != "dw"@ && k != "dh"@ && k != "rx"@ && k != "ry"@
